@@ -178,7 +178,12 @@ func checkTraverse(c travCase) *vk.Failure {
 	// -- BFS with until: called in non-decreasing depth order with depth = hop
 	// distance, once per node, stops at the first satisfying node.
 	{
-		w := traverse.BreadthFirst{Traverse: filter}
+		visits := make([]int, n)
+		w := traverse.BreadthFirst{Traverse: filter, Visit: func(x graph.Node) {
+			if i, ok := m.idx[x.ID()]; ok {
+				visits[i]++
+			}
+		}}
 		traversed = map[[2]int]int{}
 		calls := make([]int, n)
 		last := 0
@@ -192,6 +197,9 @@ func checkTraverse(c travCase) *vk.Failure {
 			}
 			if fail != nil {
 				return true
+			}
+			if visits[i] != 1 {
+				fail = vk.Failf("bfs-until-before-visit", "until called on node %d after %d calls of Visit on it (want exactly one)", x.ID(), visits[i])
 			}
 			calls[i]++
 			if calls[i] > 1 {
@@ -254,7 +262,12 @@ func checkTraverse(c travCase) *vk.Failure {
 
 	// -- DFS with until
 	{
-		w := traverse.DepthFirst{Traverse: filter}
+		visits := make([]int, n)
+		w := traverse.DepthFirst{Traverse: filter, Visit: func(x graph.Node) {
+			if i, ok := m.idx[x.ID()]; ok {
+				visits[i]++
+			}
+		}}
 		traversed = map[[2]int]int{}
 		calls := make([]int, n)
 		var fail *vk.Failure
@@ -264,6 +277,9 @@ func checkTraverse(c travCase) *vk.Failure {
 			if !ok {
 				fail = vk.Failf("dfs-until-foreign", "until called with unknown node %d", x.ID())
 				return true
+			}
+			if visits[i] != 1 && fail == nil {
+				fail = vk.Failf("dfs-until-before-visit", "until called on node %d after %d calls of Visit on it (want exactly one)", x.ID(), visits[i])
 			}
 			calls[i]++
 			if calls[i] > 1 && fail == nil {
@@ -303,6 +319,9 @@ func checkTraverse(c travCase) *vk.Failure {
 			i, ok := m.idx[res.ID()]
 			if !ok || i != stopAt {
 				return vk.Failf("dfs-until-result", "root %d: Walk returned %d, until first returned true on index %d", m.id[root], res.ID(), stopAt)
+			}
+			if !w.Visited(res) {
+				return vk.Failf("dfs-until-result-not-visited", "root %d: Visited(%d) is false for the node the walk stopped at", m.id[root], res.ID())
 			}
 		}
 	}
